@@ -1,6 +1,6 @@
 SPECIFICATION Spec
 CONSTANTS MaxLen = 4
-EmitMod = 8
+EmitMod = 12
 Emit = TRUE
 Alphabet <- AlphaThorough
 INVARIANTS TypeOK DesignRefinesInfoset EmitCase
